@@ -10,7 +10,6 @@ package main
 
 import (
 	"bytes"
-	"encoding/binary"
 	"encoding/hex"
 	"fmt"
 	"os"
@@ -403,18 +402,39 @@ func (o *oracle) checkHistory(pan bool, got []rec) {
 
 // ---- running one case ---------------------------------------------------------------
 
+// One Badger store serves every case of a run (opening one costs ~0.3 s); it
+// is emptied between cases with the public RemoveGraphEntries("") and checked
+// to be empty.  A replay runs on a store of its own.
+var theStore *storage.BadgerStore
+var theDir string
+
 func openStore() (*storage.BadgerStore, func()) {
-	dir, err := os.MkdirTemp("", "c27-")
-	if err != nil {
-		panic(err)
+	if theStore == nil {
+		dir, err := os.MkdirTemp("", "c27-")
+		if err != nil {
+			panic(err)
+		}
+		store, err := storage.NewBadgerStore(&config.Custom{}, dir)
+		if err != nil {
+			panic(err)
+		}
+		theStore, theDir = store, dir
 	}
-	store, err := storage.NewBadgerStore(&config.Custom{}, dir)
-	if err != nil {
-		panic(err)
+	return theStore, func() {
+		if _, err := theStore.RemoveGraphEntries(""); err != nil {
+			panic(err)
+		}
+		if n, err := theStore.RemoveGraphEntries(""); err != nil || n != 0 {
+			panic(fmt.Sprintf("store not empty after wipe: %d %v", n, err))
+		}
 	}
-	return store, func() {
-		store.Close()
-		os.RemoveAll(dir)
+}
+
+func closeStore() {
+	if theStore != nil {
+		theStore.Close()
+		os.RemoveAll(theDir)
+		theStore = nil
 	}
 }
 
@@ -949,6 +969,7 @@ func main() {
 		var cs Case
 		c.ReplayCase(&cs)
 		run(c, cs)
+		closeStore()
 		c.Finish()
 		return
 	}
@@ -976,6 +997,6 @@ func main() {
 			{Kind: "accept", Signer: newKey(r), Payee: newKey(r), Ts: T, Genesis: true},
 			{Kind: kind, Signer: newKey(r), Payee: newKey(r), Ts: uint64(int64(T) + d)}}})
 	}
-	_ = binary.BigEndian
+	closeStore()
 	c.Finish()
 }
